@@ -188,7 +188,7 @@ def gmrf_res(c, cls, ws):
                 "rescale=%s" % c.get("rescale") if c["variant"] == "time_aware" else "no-tree",
                 "hetero" if ("g" in c and any(s > 0 for s in c["g"]["samp"])) else "iso/none",
                 "offset" if abs(c["x"][0][0]) > 50 else "centered"),
-        tags={"cls": cls, "variant": c["variant"], "unit_weights": unit, "batched": c["B"] is not None,
+        tags={"cls": cls, "gmrf": cls, "variant": c["variant"], "unit_weights": unit, "batched": c["B"] is not None,
               "bucket": "%s/%s" % (cls, c["variant"])},
     )
     return res
@@ -352,7 +352,7 @@ def piecewise_part(draw, allow_batched_heights=True, batched_grid_model=True, mi
     if B is not None and form == "tree" and allow_batched_heights and draw(st.booleans()):
         c["heights_rows"] = draw(height_rows(g, rows))
     if kind == "skygrid":
-        c["grid"] = draw(gc.grids(c["heights_rows"] or [g["coal"]], m))
+        c["grid"] = draw(gc.grids(c["heights_rows"] or [g["coal"]], m, samp=g["samp"]))
     return c
 
 
